@@ -264,9 +264,10 @@ func runC17F(s *kernel.Sim) {
 	// only after their first 48 characters
 	longIDs := tp.Chance(1, 4)
 	if longIDs {
+		pre := strings.Repeat("0123456789abcdef", []int{3, 3, 17}[tp.Choose(3)]) // 48 characters, or 272
 		for i, q := range seqs {
 			if q != "" {
-				seqs[i] = "0123456789abcdef0123456789abcdef0123456789abcdef-" + q
+				seqs[i] = pre + "-" + q
 			}
 		}
 	}
